@@ -137,6 +137,7 @@ def run(rep):
 
 
 HAND_FAILING = [
+    "\ufeff", "\ufeff1", "\u200b", "1 \u0301", "\u00ad", "[\n\ufeff]", "a\u0301\u0301 b",
     "@", "\u00e9", "[1,", "{a: 1", "local", "1 +", "\"abc", "/* unterminated", "|||\n  x\n", "1.", "1e", "0x1", "01",
     "zz", "\n\n\tzz", "\r\n  zz\r\n", "local a = 1;\r\n\ta.b", "\"\u00e9\u00e9\" + zz", "\"\U0001F600\" [zz]", "{a: self.b}",
     "{a: 1}.b", "[1][5]", "error \"boom\"", "assert false : \"m\"; 1", "local f(x) = f(x); f(1)", "local a = a; a",
